@@ -1,12 +1,16 @@
 package main
 
 import (
+	"bytes"
+	"crypto/sha256"
 	"encoding/hex"
 	"fmt"
+	"math/big"
 	"sort"
 	"strconv"
 	"strings"
 
+	"github.com/ontio/ontology-crypto/ec"
 	"github.com/ontio/ontology-crypto/keypair"
 	s "github.com/ontio/ontology-crypto/signature"
 	"github.com/polynetwork/poly/common"
@@ -16,6 +20,8 @@ import (
 	"github.com/polynetwork/poly/core/types"
 	"github.com/polynetwork/poly/core/validation"
 	ontErrors "github.com/polynetwork/poly/errors"
+	"golang.org/x/crypto/ed25519"
+	"golang.org/x/crypto/ripemd160"
 	"polyverif/internal/hx"
 )
 
@@ -186,6 +192,24 @@ func matchable(valid [][]bool, m, kn int) bool {
 	return true
 }
 
+// keyToken renders a public key as ser:type:curve:x:y — the serialization and the quadruple keypair.SortPublicKeys
+// compares (key type, curve label, X, Y; for Ed25519 the key bytes as one number).
+func keyToken(pk keypair.PublicKey) string {
+	sr := hex.EncodeToString(keypair.SerializePublicKey(pk))
+	ty := int(keypair.GetKeyType(pk))
+	switch k := pk.(type) {
+	case *ec.PublicKey:
+		c, err := keypair.GetCurveLabel(k.Curve)
+		if err != nil {
+			return "?"
+		}
+		return fmt.Sprintf("%s:%d:%d:%s:%s", sr, ty, c, k.X.String(), k.Y.String())
+	case ed25519.PublicKey:
+		return fmt.Sprintf("%s:%d:0:%s:0", sr, ty, new(big.Int).SetBytes(k).String())
+	}
+	return "?"
+}
+
 func txFor(nonce uint32) (*types.Transaction, error) {
 	tx := &types.Transaction{Version: 0, TxType: types.Invoke, Nonce: nonce, Payload: &payload.InvokeCode{Code: []byte{1, 2, 3}}}
 	sink := common.NewZeroCopySink(nil)
@@ -288,6 +312,93 @@ func (f *sigsFam) Exec(r *hx.Run, op []string) string {
 			out = strings.Join(signers, ",")
 		}
 		return "ok signers=" + out
+	case "prog", "bk":
+		var pks []keypair.PublicKey
+		first := 2
+		if op[0] == "bk" {
+			first = 1
+		}
+		if len(op) < first {
+			return "bad-op"
+		}
+		for _, t := range op[first:] {
+			f := strings.Split(t, ":")
+			if len(f) != 5 {
+				return "bad-op"
+			}
+			b, err := hex.DecodeString(f[0])
+			if err != nil {
+				return "bad-op"
+			}
+			pk, err := keypair.DeserializePublicKey(b)
+			if err != nil {
+				return "bad-key"
+			}
+			if keyToken(pk) != t { // serialization and the compared quadruple are recomputed from the key
+				return "bad-verdicts"
+			}
+			pks = append(pks, pk)
+		}
+		hash160 := func(b []byte) string {
+			t := sha256.Sum256(b)
+			md := ripemd160.New()
+			md.Write(t[:])
+			return hex.EncodeToString(md.Sum(nil))
+		}
+		empty := hex.EncodeToString(common.ADDRESS_EMPTY[:])
+		if op[0] == "bk" {
+			a, err := types.AddressFromBookkeepers(append([]keypair.PublicKey{}, pks...))
+			got := hex.EncodeToString(a[:])
+			n := len(pks)
+			want := empty
+			if n == 1 {
+				want = hash160(keypair.SerializePublicKey(pks[0]))
+			} else {
+				sink := common.NewZeroCopySink(nil)
+				if e := types.EncodeMultiPubKeyProgramInto(sink, append([]keypair.PublicKey{}, pks...), uint16(n-(n-1)/3)); e == nil {
+					want = hash160(sink.Bytes())
+				}
+			}
+			if err != nil || got != want {
+				r.Viol("C39:bookkeeper-address", fmt.Sprintf("AddressFromBookkeepers over %d keys gives %s (err %v), expected %s", n, got, err, want))
+			}
+			if got == empty {
+				r.Hist("bk.empty-address")
+			}
+			return "empty=" + b01(got == empty)
+		}
+		m, err := strconv.Atoi(op[1])
+		if err != nil || m < 0 {
+			return "bad-op"
+		}
+		sink := common.NewZeroCopySink(nil)
+		encErr := types.EncodeMultiPubKeyProgramInto(sink, append([]keypair.PublicKey{}, pks...), uint16(m))
+		a, aerr := types.AddressFromMultiPubKeys(append([]keypair.PublicKey{}, pks...), m)
+		got := hex.EncodeToString(a[:])
+		if aerr != nil {
+			r.Viol("C39:multi-address-error", fmt.Sprintf("AddressFromMultiPubKeys returned an error: %v", aerr))
+		}
+		if encErr != nil {
+			r.Hist("prog.err")
+			if got != empty {
+				r.Viol("C39:multi-address-after-encoder-error", fmt.Sprintf("encoder error but address %s", got))
+			}
+			return "err empty=" + b01(got == empty)
+		}
+		r.Hist("prog.ok")
+		if got != hash160(sink.Bytes()) {
+			r.Viol("C39:multi-address-not-hash-of-program", fmt.Sprintf("AddressFromMultiPubKeys(m=%d, n=%d) = %s, RIPEMD160(SHA256(program)) = %s", m, len(pks), got, hash160(sink.Bytes())))
+		}
+		// the same keys in reverse order: same program
+		rev := make([]keypair.PublicKey, len(pks))
+		for i, k := range pks {
+			rev[len(pks)-1-i] = k
+		}
+		s2 := common.NewZeroCopySink(nil)
+		if e := types.EncodeMultiPubKeyProgramInto(s2, rev, uint16(m)); e != nil || !bytes.Equal(s2.Bytes(), sink.Bytes()) {
+			r.Viol("C39:program-depends-on-key-order", "the same keys listed in reverse order give different program bytes")
+		}
+		return "ok " + hx.Hex(sink.Bytes()) + " empty=" + b01(got == empty)
 	case "vms":
 		if len(op) != 3 {
 			return "bad-op"
@@ -628,6 +739,36 @@ func (f *sigsFam) Gen(r *hx.Run) {
 		}
 		if i%97 == 1 {
 			r.Sample(map[string]interface{}{"entries": kinds, "res": res})
+		}
+		if r.Rng.Chance(1, 2) { // program bytes and addresses: n in 0..18, m in {0, 1, .., n, n+1, 65535, 65536+1, 65536}, repeated keys
+			n := r.Rng.Intn(8)
+			switch r.Rng.Intn(8) {
+			case 0:
+				n = 16
+			case 1:
+				n = 17
+			case 2:
+				n = 15 + r.Rng.Intn(4)
+			}
+			ks := pickKeys(r, pool, n, false)
+			if n > 1 && r.Rng.Chance(1, 6) {
+				ks[n-1] = ks[0]
+			}
+			var toks []string
+			for _, k := range ks {
+				toks = append(toks, keyToken(k.pub))
+			}
+			m := 0
+			if n > 0 {
+				m = 1 + r.Rng.Intn(n)
+			}
+			if r.Rng.Chance(1, 4) {
+				m = []int{0, n + 1, 65535, 65536, 65536 + 1, 65536 + n, 1, n}[r.Rng.Intn(8)]
+			}
+			r.Do(strings.TrimSpace(fmt.Sprintf("prog %d %s", m, strings.Join(toks, " "))))
+			if r.Rng.Chance(1, 2) {
+				r.Do(strings.TrimSpace("bk " + strings.Join(toks, " ")))
+			}
 		}
 		if r.Rng.Chance(1, 3) {
 			es := genEntry(r, pool, h[:], other, false)
